@@ -1,0 +1,55 @@
+//! Probes for external runtime monitors. Only compiled with the `verif-hooks` feature, which is
+//! off by default; nothing in the crate depends on it.
+
+use std::{cell::RefCell, time::Duration};
+
+/// Decision points of the connection run loop.
+#[derive(Clone, Copy, Debug, PartialEq, Eq)]
+pub enum LoopEvent {
+    /// A loop iteration starts.
+    IterStart {
+        /// Whether the loop is in the idling state.
+        idling: bool,
+    },
+    /// While idling, the server's reply won the select.
+    SelectReply,
+    /// While idling, the command channel won the select.
+    SelectCommand {
+        /// `false` if the channel was closed.
+        some: bool,
+    },
+    /// The reply to `noidle` was received.
+    NoidleReply,
+    /// The reply to a command was received and handed to the responder.
+    Reply,
+    /// The next command arrived inside the re-idle window.
+    NextInWindow,
+    /// The re-idle window expired.
+    WindowExpired,
+    /// The loop exits.
+    Exit,
+}
+
+thread_local! {
+    static SINK: RefCell<Option<Box<dyn FnMut(LoopEvent)>>> = const { RefCell::new(None) };
+}
+
+/// Install (or remove) the sink receiving the events emitted on this thread.
+pub fn set_sink(sink: Option<Box<dyn FnMut(LoopEvent)>>) {
+    SINK.with(|s| *s.borrow_mut() = sink);
+}
+
+pub(crate) fn emit(event: LoopEvent) {
+    SINK.with(|s| {
+        if let Ok(mut s) = s.try_borrow_mut() {
+            if let Some(f) = s.as_mut() {
+                f(event);
+            }
+        }
+    });
+}
+
+/// The delay after which the loop starts idling again when no further command arrives.
+pub fn next_command_idle_timeout() -> Duration {
+    crate::client::verif_next_command_idle_timeout()
+}
